@@ -625,6 +625,7 @@ pub fn run_c04(ctx: &Ctx) -> ! {
     // local direction: every interleaving (within a preemption bound) of the parallel transfers' libc calls,
     // decided by the thread-level scheduler (E6) on the real multi-threaded process
     let mut tsched_rows: Vec<Value> = Vec::new();
+    let mut any_tsched_capped = false;
     let mut tsched_schedules = 0u64;
     let mut tsched_steps = 0u64;
     if std::env::var("VH_NO_TSCHED").is_err() {
@@ -639,6 +640,7 @@ pub fn run_c04(ctx: &Ctx) -> ! {
             let out = crate::e6::explore_local(&c, &["a"], bound, workers, cap, 16);
             tsched_schedules += out.schedules;
             tsched_steps += out.steps;
+            any_tsched_capped |= out.capped;
             evals.fetch_add(out.schedules, Ordering::Relaxed);
             tsched_rows.push(json!({"config": cfg_name(&c), "tokio_workers": workers, "preemption_bound": bound, "schedules": out.schedules, "capped": out.capped, "scheduling_steps": out.steps, "max_points": out.max_points, "max_simultaneously_announced_calls": out.max_parked, "threads_seen": out.threads, "distinct_outcomes": out.outcomes.len(), "distinct_completion_orders": out.completion_orders.len()}));
             let mut vs = out.violations;
@@ -663,7 +665,7 @@ pub fn run_c04(ctx: &Ctx) -> ! {
         .set("thread_level_exploration", Value::Array(tsched_rows))
         .set("rule", "configuration = direction {local, push, pull over the ssh stand-in} x --delete x exclude {none, *.x, 'sk ip'} x --jobs {1,2,4} x --verbose x tree template (19 special names — spaces, quotes, backslash, $, $(…), glob characters, newline, tab, leading dashes, unicode, dot files, ;, & — each in the 4 destination states absent / same size+second / different size / different mtime; the names as directory names; nesting depth 3 with empty files; destination-only, excluded and stale files) ; after each run a full recursive snapshot diff (bytes, ns mtimes, inodes, directories) of source, destination and the remote home is compared with the reference planner's transfer / skip / delete sets and the Plan / Complete lines; plus file-vs-directory clashes and every completion order of K = 3 (and 4) parallel SSH transfers; for the LOCAL direction a thread-level controlled scheduler (interposer mode tsched) parks every thread of the real copia process before each libc call on a path under SRC or DST and all interleavings of the 3 (4) transfers' calls within the stated preemption bound are executed (thread_level_exploration); non-trivial = destination entries that changed, summed")
         .set("samples", json!([{"config":"push T1 delete=true exclude=\"*.x\" jobs=2 verbose=false"},{"config":"pull T3 delete=false exclude=\"\" jobs=4 verbose=false"}]))
-        .set("exhaustive", true);
+        .set("exhaustive", !any_tsched_capped);
     rep.assume("SSH through a stand-in (bash -c with OpenSSH argument joining; remote login shell assumed bash); tmpfs; run as root; mtimes at or after the epoch; names ending .copia-tmp reserved");
     finish(ctx, rep, violations);
 }
